@@ -139,7 +139,9 @@ PROPS['C18'] = {
     'queries': [
         dict(name='function_hist_k4', kernel='C18_function.cpp', prefix='fn_', mode='seq', inline=20000, unwind=26, lower_defs=['-DHIST_K=4'], covers=[0], timeout=2400),
         dict(name='unique_function_hist_k4', kernel='C18_function.cpp', prefix='fn_', mode='seq', inline=20000, unwind=26, lower_defs=['-DHIST_K=4', '-DUNIQUE'], covers=[0], timeout=2400),
-        dict(name='function_hist_k6', kernel='C18_function.cpp', prefix='fn_', mode='seq', inline=20000, unwind=26, lower_defs=['-DHIST_K=6'], covers=[0], timeout=10000, tiers=('thorough',)),
+        dict(name='any_sender_hist_k4', kernel='C18_any_sender.cpp', prefix='as_', mode='seq', inline=20000, unwind=26, lower_defs=['-DHIST_K=4'], covers=[0], timeout=3000),
+        dict(name='unique_any_sender_hist_k4', kernel='C18_any_sender.cpp', prefix='as_', mode='seq', inline=20000, unwind=26, lower_defs=['-DHIST_K=4', '-DUNIQUE'], covers=[0], timeout=3000),
+        dict(name='function_hist_k5', kernel='C18_function.cpp', prefix='fn_', mode='seq', inline=20000, unwind=26, lower_defs=['-DHIST_K=5'], covers=[0], timeout=10000, tiers=('thorough',)),
     ],
 }
 
